@@ -561,10 +561,13 @@ class SigmaDetections:
         detections = {
             identifier: detection.to_plain() for identifier, detection in self.detections.items()
         }
-        if len(self.condition) > 1:
-            condition: str | list[str] = self.condition
+        # Conditions are taken from the parsed conditions because these are the objects changed by
+        # condition transformations; the initial condition strings are outdated afterwards.
+        conditions = [cond.condition for cond in self.parsed_condition]
+        if len(conditions) > 1:
+            condition: str | list[str] = conditions
         else:
-            condition = self.condition[0]
+            condition = conditions[0]
 
         return {
             **detections,
